@@ -180,13 +180,20 @@ def parseMlsxLineBytes (b : RawLine) : Except PyErr ListEntry := do
 
 /-- body of `__anext__` for one line: parse, skip `.`/`..`, read `info["type"]`, yield `cls.path / name`
     (`α` is the line type: `bytes` from the data stream) -/
-def listStep {α : Type} (parse : α → Except PyErr ListEntry) (path : PPath) (line : α) :
+def listStepWith (typeRaises : Bool) {α : Type} (parse : α → Except PyErr ListEntry) (path : PPath) (line : α) :
     Except PyErr (Option ListEntry) := do
   let (name, info) ← parse line
   if name.str = ['.'] ∨ name.str = dotdot then pure none
-  else
+  else if typeRaises then
     let _ ← dictGet info "type".toList      -- `info["type"] == "dir" and recursive`
     pure (some (path.join name, info))
+  else
+    pure (some (path.join name, info))      -- `info.get("type") == "dir" and recursive`
+
+/-- the loop body as the source has it now: how the `type` fact is read is regenerated from the source -/
+def listStep {α : Type} (parse : α → Except PyErr ListEntry) (path : PPath) (line : α) :
+    Except PyErr (Option ListEntry) :=
+  listStepWith Generated.listTypeLookupRaises parse path line
 
 /-- all lines of one data stream, in order; the first exception ends the listing -/
 def listLines {α : Type} (parse : α → Except PyErr ListEntry) (path : PPath) :
